@@ -67,7 +67,11 @@ def if_chain_cases(fn_node, attr='tag', var=None) -> Dict[str, Tuple[bool, str, 
 def ref_dispatch(setter: FuncInfo) -> Dict[str, Tuple[str, object]]:
     """The `ref` dispatch of XSDAttribute.xsd_tree[setter]: literal -> ('fragment', ET node) | ('unhandled', why)."""
     out = {}
-    cases = if_chain_cases(setter.node, attr='__none__', var='ref')
+    refvar = 'ref'
+    for n in ast.walk(setter.node):
+        if isinstance(n, ast.Assign) and isinstance(n.targets[0], ast.Name) and unparse(n.value).endswith(".get_attributes().get('ref')"):
+            refvar = n.targets[0].id
+    cases = if_chain_cases(setter.node, attr='__none__', var=refvar)
     for lit, (handled, why, ifn) in cases.items():
         body = ifn.orelse if lit == '*' else ifn.body
         frag = None
@@ -125,6 +129,7 @@ def check_particle_dispatch(ctx):
                   key=f"R-EXH.particles|domain|{tag}")
     # each handled branch builds the matching content class and passes the occurrence values read from the same node
     want = {'element': 'XSDElement', 'sequence': 'XSDSequence', 'choice': 'XSDChoice'}
+    occ_vars = {}
     for tag, (h, why, ifn) in cases.items():
         if tag == '*' or not h:
             continue
@@ -135,7 +140,10 @@ def check_particle_dispatch(ctx):
             call = rets[0].value
             kws = {k.arg: unparse(k.value) for k in call.keywords}
             content = kws.get('content', unparse(call.args[0]) if call.args else '')
-            occ_ok = kws.get('min_occurrences') == 'min_occurrences' and kws.get('max_occurrences') == 'max_occurrences'
+            # the occurrence arguments are plain local variables (whatever they are called); which ones is checked below
+            occ_vars.setdefault('min', set()).add(kws.get('min_occurrences'))
+            occ_vars.setdefault('max', set()).add(kws.get('max_occurrences'))
+            occ_ok = bool(kws.get('min_occurrences')) and bool(kws.get('max_occurrences')) and kws.get('min_occurrences') != kws.get('max_occurrences')
             if tag in want:
                 ok = content.startswith(want[tag] + '(') and occ_ok
             else:
@@ -164,13 +172,17 @@ def check_particle_dispatch(ctx):
                 if isinstance(n, ast.Name):
                     out |= def_roots(n.id, seen + (name,))
         return out
-    for var, key in (('min_occurrences', 'minOccurs'), ('max_occurrences', 'maxOccurs')):
-        vals = defs.get(var, [])
+    for which, key in (('min', 'minOccurs'), ('max', 'maxOccurs')):
+        names = occ_vars.get(which, set())
+        var = next(iter(names)) if len(names) == 1 and None not in names else None
+        res.check(var is not None, 'R-EXH.particles', conv.fq, f"every branch passes the same variable as {which}_occurrences", fail_detail=str(names),
+                  key=f"R-EXH.particles|occurrence-var|{which}")
+        vals = defs.get(var, []) if var else []
         reads_key = bool(vals) and all(any(const_value(n) == key for n in ast.walk(v)) for v in vals)
         from_param = bool(vals) and p0 in def_roots(var)
         other_key = any(const_value(n) in ('minOccurs', 'maxOccurs') and const_value(n) != key for v in vals for n in ast.walk(v))
         res.check(reads_key and from_param and not other_key, 'R-EXH.particles', conv.fq,
-                  f"{var} is read from key '{key}' of the dispatched node itself",
+                  f"{which}_occurrences is read from key '{key}' of the dispatched node itself",
                   fail_detail='; '.join(unparse(v) for v in vals) or 'not assigned',
                   key=f"R-EXH.particles|occurrence-source|{key}")
     # defaults in XMLChildContainer.__init__
